@@ -41,8 +41,15 @@ def gen_cases(tier: str, seed: int) -> List[Dict[str, Any]]:
         cases.append({"kind": kind, "fan_in": fi, "fan_out": fo, "k": k, "depth": depth, "eta": loguniform(rng, 1e-4, 1.0),
                       "opt": rng.choice(["Adam", "AdamW"]), "constraint": cons, "container": rng.choice(["DepthSequential", "DepthModuleList"]),
                       "batch_dims": rng.choice([0, 1]) if kind != "Conv1d" else rng.choice([0, 1]),
+                      # how the parameters reach the optimizer: flat iterable, or ONE explicit group in which the layer under test
+                      # comes after the parameters of another layer
+                      "group_form": rng.choice(["flat", "flat", "one-group", "groups-of-one"]),
                       "seed": derive_seed(seed, PROPERTY, "s", i) % (2**31)})
     return cases
+
+
+def rng_other(seed: int) -> int:
+    return [5, 17, 64, 300][seed % 4]
 
 
 def run_case(case: Dict[str, Any], ctx) -> None:
@@ -77,7 +84,18 @@ def run_case(case: Dict[str, Any], ctx) -> None:
     cls = uu.optim.Adam if case["opt"] == "Adam" else uu.optim.AdamW
     eta = case["eta"]
     try:
-        opt = cls(holder.parameters(), lr=eta, eps=0.0, weight_decay=0.0)
+        form = case.get("group_form", "flat")
+        if form == "flat":
+            arg = holder.parameters()
+        else:
+            other = uu.Linear(rng_other(case["seed"]), 3, dtype=torch.float64) if depth is None else None
+            plist = ([p for p in other.parameters()] if other is not None else []) + [p for p in holder.parameters() if all(p is not q for q in layer.parameters())]
+            plist = plist + list(layer.parameters())  # the layer under test last
+            if other is not None:
+                for p in other.parameters():
+                    p.grad = torch.zeros_like(p)
+            arg = [{"params": plist}] if form == "one-group" else [{"params": [p]} for p in plist]
+        opt = cls(arg, lr=eta, eps=0.0, weight_decay=0.0)
         y0 = layer(x)
         g = torch.randn(y0.shape, generator=gen, dtype=torch.float64)
         g = torch.where(g.abs() < 1e-3, torch.full_like(g, 0.5), g)
@@ -104,4 +122,4 @@ def run_case(case: Dict[str, Any], ctx) -> None:
     elif not sign_ok:
         ctx.violation(key + ":output-moves-along-the-gradient", "sign(dy) != -sign(upstream gradient)", case=case)
     if fi * k > 1:
-        ctx.nontrivial(f"{kind}|{fi}|{fo}|{k}|{depth}|{case['opt']}|{case['constraint']}")
+        ctx.nontrivial(f"{kind}|{fi}|{fo}|{k}|{depth}|{case['opt']}|{case['constraint']}|{case.get('group_form')}")
